@@ -188,6 +188,11 @@ func renderXML(d *metaDoc, label string) (string, int) {
 		b.WriteString("<?xml  version=" + quoteWith(q, "1.0") + "   encoding=" + quoteWith(q, label) + "  ?>")
 	}
 	past := b.Len()
+	if q == "sq" {
+		// bytes that do not sniff as the declared charset: the declaration decides, not the body
+		b.WriteString("\n<!-- caf\xe9 \x93quoted\x94 -->")
+		past = b.Len()
+	}
 	b.WriteString("\n<root><a>text</a></root>\n")
 	return b.String(), past
 }
